@@ -542,6 +542,7 @@ func HonestView(side int, n int64) SumView {
 //	head    serve the response with head kind P1
 //	error   the read fails
 //	empty   zero bytes, no error
+//	negid   (lookup responses) the id line replaced by -P1
 //	junktail  (full tile paths) the full tile with an honest prefix (at most P1 hashes when
 //	        P1 >= 0, else as many as the tree has) and junk in the remaining entries
 type SumFault struct {
@@ -900,6 +901,11 @@ func (o *sumOps) serve(path string) ([]byte, bool) {
 			data, ok = nil, false
 		case "junktail":
 			data, ok = o.junkTail(view, path, f.P1)
+		case "negid":
+			// the record id line replaced by a negative number
+			if i := bytes.IndexByte(data, '\n'); ok && i >= 0 {
+				data = append([]byte(fmt.Sprintf("-%d", f.P1)), data[i:]...)
+			}
 		default:
 			if ok {
 				data = sumCorrupt(f.Kind, f.P1, f.P2, data)
